@@ -10,6 +10,8 @@
 //                                 split 3/4 = child2 (split 0/1): RunSingleModelJSON called TWICE on the same stdin
 //                                 (whatever the first call's decoder left unread is the second call's request)
 //                                 docs = number of JSON documents on stdout (strict decode until EOF), -1 = not valid JSON
+//     SESSION <split> k <base64>..  -> S TAB R.. TAB R..   k requests served by ONE process, one call of
+//                                 sim.RunSingleModelJSON(reader_i, writer_i, split) each (a long-lived service)
 //     DIRECT <dims 0|1> <Model> P n hex.. I k len hex..
 //                              -> OK O nout len hex.. S n hex..   direct one-cell run through the model API
 //                                 (ApplyParameters / InitialiseStates(1) / Run), PANIC when it panics
@@ -268,9 +270,14 @@ func runRequest(t *toks, w *bufio.Writer) {
 			status = -99
 		}
 	}
+	fmt.Fprintln(w, resultLine(status, so.Bytes(), se.String()))
+}
+
+// resultLine: "R exit=.. docs=.. raw=.. panic=.. doc=.." for what one call of the runner wrote
+func resultLine(status int, out []byte, stderr string) string {
 	docs := 0
 	var first interface{}
-	dec := json.NewDecoder(bytes.NewReader(so.Bytes()))
+	dec := json.NewDecoder(bytes.NewReader(out))
 	dec.UseNumber()
 	for {
 		var v interface{}
@@ -288,7 +295,7 @@ func runRequest(t *toks, w *bufio.Writer) {
 		docs++
 	}
 	pmsg := ""
-	for _, l := range strings.Split(se.String(), "\n") {
+	for _, l := range strings.Split(stderr, "\n") {
 		if strings.HasPrefix(l, "panic:") || strings.HasPrefix(l, "fatal error:") {
 			pmsg = l
 			break
@@ -299,8 +306,85 @@ func runRequest(t *toks, w *bufio.Writer) {
 		doc = canonDoc(first)
 	}
 	cb, _ := json.Marshal(doc)
-	fmt.Fprintf(w, "R exit=%d docs=%d raw=%s panic=%s doc=%s\n", status, docs,
-		base64.StdEncoding.EncodeToString(so.Bytes()), base64.StdEncoding.EncodeToString([]byte(pmsg)), cb)
+	return fmt.Sprintf("R exit=%d docs=%d raw=%s panic=%s doc=%s", status, docs,
+		base64.StdEncoding.EncodeToString(out), base64.StdEncoding.EncodeToString([]byte(pmsg)), cb)
+}
+
+// SESSION <split 0|1> k b64.. : ONE process (jsonrun session <split>) serves the k requests one after the
+// other, each through its own call sim.RunSingleModelJSON(reader_i, writer_i, split) -- a long-lived service.
+// -> "S" TAB R-line_1 TAB .. TAB R-line_k ; members after a crash of the process have exit=-98 (not run),
+// the member it died on carries the exit status.
+func runSession(t *toks, w *bufio.Writer) {
+	split := t.next()
+	k := t.int()
+	var in bytes.Buffer
+	for i := 0; i < k; i++ {
+		tok := t.next()
+		if tok == "-" {
+			tok = ""
+		}
+		in.WriteString(tok + "\n")
+	}
+	self, err := os.Executable()
+	if err != nil {
+		panic(err)
+	}
+	cmd := exec.Command(self, "session", split)
+	cmd.Stdin = &in
+	var so, se bytes.Buffer
+	cmd.Stdout = &so
+	cmd.Stderr = &se
+	status := 0
+	if err := cmd.Run(); err != nil {
+		if ee, ok := err.(*exec.ExitError); ok {
+			status = ee.ExitCode()
+		} else {
+			status = -99
+		}
+	}
+	var frames []string
+	for _, l := range strings.Split(so.String(), "\n") {
+		if strings.HasPrefix(l, "F ") {
+			frames = append(frames, l[2:])
+		}
+	}
+	parts := []string{"S"}
+	for i := 0; i < k; i++ {
+		switch {
+		case i < len(frames):
+			raw, _ := base64.StdEncoding.DecodeString(frames[i])
+			parts = append(parts, resultLine(0, raw, ""))
+		case i == len(frames):
+			st := status
+			if st == 0 {
+				st = -97 // the process ended normally without answering
+			}
+			parts = append(parts, resultLine(st, nil, se.String()))
+		default:
+			parts = append(parts, resultLine(-98, nil, ""))
+		}
+	}
+	fmt.Fprintln(w, strings.Join(parts, "\t"))
+}
+
+func sessionChild(split bool) {
+	realOut := os.Stdout
+	if devnull, err := os.OpenFile(os.DevNull, os.O_WRONLY, 0); err == nil {
+		os.Stdout = devnull // kernels' fmt.Printf diagnostics must not break the framing
+	}
+	out := bufio.NewWriter(realOut)
+	sc := bufio.NewScanner(os.Stdin)
+	sc.Buffer(make([]byte, 1<<20), 1<<28)
+	for sc.Scan() {
+		req, err := base64.StdEncoding.DecodeString(strings.TrimSpace(sc.Text()))
+		if err != nil {
+			panic(err)
+		}
+		var buf bytes.Buffer
+		sim.RunSingleModelJSON(bytes.NewReader(req), &buf, split)
+		fmt.Fprintf(out, "F %s\n", base64.StdEncoding.EncodeToString(buf.Bytes()))
+		out.Flush()
+	}
 }
 
 // ---------------------------------------------------------------- DIRECT
@@ -494,6 +578,10 @@ func jsv(t *toks, w *bufio.Writer) {
 }
 
 func main() {
+	if len(os.Args) >= 3 && os.Args[1] == "session" {
+		sessionChild(os.Args[2] == "1")
+		return
+	}
 	if len(os.Args) >= 3 && os.Args[1] == "child2" {
 		sim.RunSingleModelJSON(os.Stdin, os.Stdout, os.Args[2] == "1")
 		sim.RunSingleModelJSON(os.Stdin, os.Stdout, os.Args[2] == "1")
@@ -531,6 +619,8 @@ func main() {
 				describe(w)
 			case "RUN":
 				runRequest(t, w)
+			case "SESSION":
+				runSession(t, w)
 			case "DIRECT":
 				direct(t, w)
 			case "INITS":
